@@ -211,6 +211,12 @@ def compare(job, r, mline):
         if (int(a), int(b), int(c), int(d), int(pr), int(ep)) != (im["addr"], im["body"], im["calls"], im["depth"],
                                                                    im["pro"], im["epi"]) or cal != im["callees"]:
             return f"method record differs: model {x} ({cal}) impl {im}"
+    # the model's statically computed instruction count / stack need of every method (ImageSem.count_method,
+    # need_method: the quantities of the whole-image theorems) are handed to the dynamic judge, which compares
+    # them with what it derives from the decoded implementation image
+    parts = [x.strip() for x in mline.split("|")]
+    if len(parts) > 4 and parts[4]:
+        r["_model_counts"] = [tuple(int(y) for y in x.split(":")) for x in parts[4].split()]
     return None
 
 
